@@ -26,6 +26,19 @@ FLOOR = 24
 
 
 def check(ctx):
+    # positional parameters keep their documented positions (a reordering survives every keyword call)
+    from ..sigrules import signatures as _signatures
+
+    _signatures(ctx, "R-SIG", functions=('skmatter.metrics.periodic_pairwise_euclidean_distances', 'skmatter.metrics.pairwise_mahalanobis_distances'))
+    # boolean arguments act by their truth value (squared=np.True_, e.g. the outcome of `p == 2`)
+    from ..flagrules import function_flag_equivalence as _ffe
+    from ..harness import arr as _arr
+
+    for cell_on in (False, True):
+        _f = ctx.P.func("skmatter.metrics.periodic_pairwise_euclidean_distances")
+        _ffe(ctx, ctx.normalizer(), "R-FLAG", _f, "squared", lambda: (_arr("X", "nX", "D"), _arr("Y", "nY", "D")), lambda: ({"cell_length": _arr("cell", "D")} if cell_on else {}), ctx.site(_f), f"squared=numpy.True_,cell={cell_on}")
+        _f = ctx.P.func("skmatter.metrics.pairwise_mahalanobis_distances")
+        _ffe(ctx, ctx.normalizer(), "R-FLAG", _f, "squared", lambda: (_arr("X", "nX", "D"), _arr("Y", "nY", "D"), _arr("cov_inv", "D", "D")), lambda: ({"cell_length": _arr("cell", "D")} if cell_on else {}), ctx.site(_f), f"squared=numpy.True_,cell={cell_on}")
     P = ctx.P
     N = ctx.normalizer()
     fe = P.func("skmatter.metrics.periodic_pairwise_euclidean_distances")
